@@ -13,9 +13,9 @@ import (
 // ---- low level ---------------------------------------------------------------------------
 
 const (
-	wtVarint = 0
+	wtVarint  = 0
 	wtFixed64 = 1
-	wtBytes  = 2
+	wtBytes   = 2
 	wtFixed32 = 5
 )
 
@@ -317,19 +317,19 @@ const (
 )
 
 type Op struct {
-	Tag  int // 0 = empty oneof
-	Val  Term
-	Kind uint64
+	Tag    int // 0 = empty oneof
+	Val    Term
+	Kind   uint64
 	NoKind bool // omit the required kind field
 }
 
 type Expr []Op
 
 type Rule struct {
-	Head  Pred
+	Head   Pred
 	NoHead bool
-	Body  []Pred
-	Exprs []Expr
+	Body   []Pred
+	Exprs  []Expr
 }
 
 type Check []Rule
